@@ -431,6 +431,9 @@ def case_gemmx_channels(case):
         rnd = random.Random(seed)
         acc = SNAXGEMMXAccelerator(m=8, n=n, k=8)
         aop = acc.generate_acc_op()
+        # the module's declaration may place the status register elsewhere than the default one does
+        declared_barrier = 0x522 + seed % 3
+        aop.properties["barrier"] = IntegerAttr(declared_barrier, i32)
         mults = [rnd.randrange(1, 1 << 30) for _ in range(n * groups)]
         shifts = [rnd.randrange(1, 60) for _ in range(n * groups)]
         m_total = groups * rnd.choice([1, 2, 3])
@@ -481,6 +484,8 @@ def case_gemmx_channels(case):
                 group += 1
             else:
                 regs[a] = v
+        polled = sorted({val(e[1]) for e in I.events if e[0] == "read"})
+        E.oblige("channels:every_wait_polls_the_declared_status_register", polled == [declared_barrier], dict(polled=[hex(a) for a in polled], declared=hex(declared_barrier)))
         E.oblige("channels:one_accelerator_launch_per_group", group == groups, dict(launches=group, groups=groups))
         E.oblige("channels:streamer_launched_once", streamer_launches == 1, dict(launches=streamer_launches))
         E.oblige("explored", True)
